@@ -127,3 +127,31 @@ Theorem C18_system_write_cut : forall (A : Type) (W : c_write_handler A) l a (un
   session_run (ffi_handler W) l a units d (EFrame f :: changes levels ++ ev :: post) = ([], units', lg, last levels d, RShutdown).
 Proof. exact (fun A W => @session_write_cut _ (ffi_handler W)). Qed.
 Print Assumptions C18_system_write_cut.
+
+(* ---- the C authorization callbacks (rodbus_server_create_tls_with_authz) ---- *)
+(* AuthorizationHandlerWrapper is ONE object per server, shared by all its sessions. Regenerated from ffi server.rs: it
+   holds nothing but the C callbacks (no field in which the role of one session could survive into another - the seeded
+   change c08_3 added `role: OnceLock<CString>`), and each of its eight methods builds the role string from the role
+   parameter of the very call, calls the same-named callback with the unit id and the range / index, and denies when the
+   callback is not set. *)
+Theorem C18_authz_wrapper :
+  authz_wrapper_fields = ["inner"]%string /\
+  map aw_method authz_wrappers = ["read_coils"; "read_discrete_inputs"; "read_holding_registers"; "read_input_registers";
+                                  "write_single_coil"; "write_single_register"; "write_multiple_coils"; "write_multiple_registers"]%string /\
+  forallb (fun w => String.eqb (aw_callback w) (aw_method w) && match aw_role w with RoleOfThisCall => true | _ => false end
+                    && String.eqb (aw_unit w) "unit_id.value" && (String.eqb (aw_arg w) "range.into()" || String.eqb (aw_arg w) "idx")
+                    && aw_result_into w && aw_unset_denies w) authz_wrappers = true.
+Proof. exact P.authz_wrapper_shape. Qed.
+Print Assumptions C18_authz_wrapper.
+
+(* As a policy of the server core (FfiServer.ffi_policy, interpreting those rows): in a session whose TLS handshake
+   established role r - `AuthHandler pol r` is how the core carries it (C09_auth_role_is_handshake_role, Front_role) -
+   EVERY authorization query shows the C callback of the request's kind exactly (the frame's unit id, the request's range
+   or index, r), and the decision is the callback's answer (Deny when it is not set). With C08 (deny before anything
+   else) this is the whole path from certificate role to the application's decision. *)
+Theorem C18_system_authz_role : forall (C : FfiServer.c_authz_handler) r u req,
+  authorize (AuthHandler (FfiServer.ffi_policy C) r) u req =
+    (match C (kind_of req) with Some f => f u (arg_of req) r | None => false end,
+     [EvAuth (kind_of req) u (arg_of req) r]).
+Proof. exact P.ffi_authorize_role. Qed.
+Print Assumptions C18_system_authz_role.
